@@ -5,6 +5,7 @@ For every write of a `struct reb_binary_field` header through reb_output_stream_
 definition of its .size must equal the sum of payload byte counts written before the next header, loop
 back-edge, branch join or return; a header whose size is the constant 0 must have no payload.
 """
+import re
 from ..core import AnalysisError, anchor
 from .. import cfront
 from ..cfront import strip, walk, callee_name, call_args, qtype, render, line_of
@@ -205,14 +206,64 @@ def rule_reader(ctx, rule):
     samples = []
     found_seek = False
 
-    def consumed(block):
-        out = []
-        for e in walk(block):
+    # helpers of this file that read `size` bytes of their stream argument (a split-off "realloc + fread"): a call consumes
+    # the size it is given (a zero size consumes nothing either way)
+    readers = {}
+    for hname, h in tu.funcs.items():
+        hb = cfront.body(h)
+        if hb is None or hname == fn['name']:
+            continue
+        ps = [p_.get('name') for p_ in cfront.params(h)]
+        for e in walk(hb):
             if e.get('kind') == 'CallExpr' and callee_name(e) == 'fread':
                 a = call_args(e)
-                sz, cnt = render(a[1]), render(a[2])
-                out.append(sz if cnt == '1' else '(%s*%s)' % (sz, cnt))
-        return out
+                if render(a[1]) in ps and render(a[2]) == '1' and render(a[3]) in ps:
+                    readers[hname] = ps.index(render(a[1]))
+
+    def consumed_paths(block):
+        """list of alternatives, each the list of sizes consumed along one path through the if/else structure of the block"""
+        def seq(nodes):
+            alts = [[]]
+            for nd in nodes:
+                nxt = []
+                for a in alts:
+                    for b in visit(nd):
+                        nxt.append(a + b)
+                alts = nxt[:64]
+            return alts
+
+        def visit(node):
+            k = node.get('kind')
+            if k == 'IfStmt':
+                pre = visit(node['inner'][0])
+                th = visit(node['inner'][1])
+                el = visit(node['inner'][2]) if len(node['inner']) > 2 and node['inner'][2].get('kind') else [[]]
+                return [p_ + b for p_ in pre for b in th + el]
+            if k == 'ForStmt':
+                m_ = 1
+                c_ = node['inner'][2]
+                if c_ and c_.get('kind'):
+                    mm = re.match(r'^\(?\w+<(\d+)\)?$', render(c_).replace(' ', ''))
+                    if mm:
+                        m_ = int(mm.group(1))
+                body_alts = visit(node['inner'][-1])
+                return [b * m_ for b in body_alts]
+            if k == 'CallExpr':
+                cal = callee_name(node)
+                inner = seq([c for c in node.get('inner', []) if isinstance(c, dict)])
+                if cal == 'fread':
+                    a = call_args(node)
+                    sz, cnt = render(a[1]), render(a[2])
+                    return [x + [sz if cnt == '1' else '(%s*%s)' % (sz, cnt)] for x in inner]
+                if cal in readers:
+                    return [x + [render(call_args(node)[readers[cal]])] for x in inner]
+                return inner
+            return seq([c for c in node.get('inner', []) or [] if isinstance(c, dict)])
+        return visit(block)
+
+    def consumed(block):
+        alts = consumed_paths(block)
+        return alts[0] if alts else []
 
     def has_goto_next(block):
         for e in walk(block):
@@ -238,14 +289,19 @@ def rule_reader(ctx, rule):
         src = cfront.source_line('input.c', gotos[0].get('_line'))
         if 'finish_fields' in src:
             continue
-        reads = []
+        alts = [[]]
         for s in blk.get('inner', []):
             if s.get('kind') in ('CompoundStmt',):
                 continue
-            reads.extend(consumed(s))
+            alts = [a + b for a in alts for b in consumed_paths(s)][:64]
         n += 1
         line = blk.get('_line')
-        ok = reads == ['field.size'] or (len(reads) == 7 and all(r == '(field.size/7)' for r in reads))
+
+        def exact(reads):
+            return reads == ['field.size'] or (len(reads) == 7 and all(r == '(field.size/7)' for r in reads))
+        bad_alts = [a for a in alts if not exact(a)]
+        ok = not bad_alts
+        reads = bad_alts[0] if bad_alts else alts[0]
         # frozen exception: the 64-byte file header (its first 16 bytes were consumed as the struct reb_binary_field)
         if not ok and reads == ['(sizeof(char)*bufsize)']:
             ok = True
